@@ -100,3 +100,70 @@ func init() {
 		return in.stringOfBytes(a[0].(*SliceV))
 	}
 }
+
+func b64Len(kind, name string, n *smt.Term) *smt.Term {
+	return smt.UF("b64"+kind+"len_"+name, []string{"(_ BitVec 64)"}, &smt.Term{K: smt.KBV, W: 64}, n)
+}
+
+func init() {
+	// EncodedLen / DecodedLen: functions of the length only; Encode / Decode fill a caller-made buffer of that size
+	models["(*encoding/base64.Encoding).EncodedLen"] = func(in *Interp, fn *ssa.Function, a []Value) Value {
+		l := b64Len("e", b64Name(in, a[0]), termArg(in, a[1]))
+		in.assumeOnce(smt.And(smt.BVSle(smt.BV(0, 64), l), smt.BVSle(l, smt.BV(1<<40, 64))))
+		return l
+	}
+	models["(*encoding/base64.Encoding).DecodedLen"] = func(in *Interp, fn *ssa.Function, a []Value) Value {
+		l := b64Len("d", b64Name(in, a[0]), termArg(in, a[1]))
+		in.assumeOnce(smt.And(smt.BVSle(smt.BV(0, 64), l), smt.BVSle(l, smt.BV(1<<40, 64))))
+		return l
+	}
+	models["(*encoding/base64.Encoding).Encode"] = func(in *Interp, fn *ssa.Function, a []Value) Value {
+		name := b64Name(in, a[0])
+		dst, src := a[1].(*SliceV), a[2].(*SliceV)
+		if dst.SB == nil || !(dst.SB.Off.Const && dst.SB.Off.U == 0) {
+			in.end("unmodelled", "base64 Encode into a fixed-size or offset buffer at %s", in.where())
+		}
+		x := in.stringOfBytes(src)
+		e := in.b64Encode(name, x)
+		in.X.noteAssumption("encoding/base64 Encode(dst, src): dst (made with EncodedLen(len(src))) holds exactly EncodeToString(src)")
+		in.assumeOnce(smt.Eq(BLen(e), b64Len("e", name, in.lenOf(src))))
+		dst.SB.Buf.Str, dst.SB.Buf.Arr, dst.SB.Buf.Base = e, nil, nil
+		return nil
+	}
+	models["(*encoding/base64.Encoding).Decode"] = func(in *Interp, fn *ssa.Function, a []Value) Value {
+		name := b64Name(in, a[0])
+		dst, src := a[1].(*SliceV), a[2].(*SliceV)
+		if dst.SB == nil || !(dst.SB.Off.Const && dst.SB.Off.U == 0) {
+			in.end("unmodelled", "base64 Decode into a fixed-size or offset buffer at %s", in.where())
+		}
+		s := in.stringOfBytes(src)
+		in.event("base64.%s.Decode", name)
+		if !in.Branch(B64OK(name, s)) {
+			return Tuple{smt.BV(0, 64), in.opaqueError("base64")}
+		}
+		d := B64D(name, s)
+		n := BLen(d)
+		in.X.noteAssumption("encoding/base64 Decode(dst, src): the first n bytes of dst are DecodeString(src), n <= DecodedLen(len(src))")
+		in.assumeOnce(smt.And(smt.BVSle(smt.BV(0, 64), n), smt.BVSle(n, b64Len("d", name, in.lenOf(src)))))
+		dst.SB.Buf.Str, dst.SB.Buf.Arr, dst.SB.Buf.Base = d, nil, nil
+		return Tuple{n, nilError()}
+	}
+	// NewEncoder(enc, w): a WriteCloser that emits EncodeToString(everything written) to w on Close
+	models["encoding/base64.NewEncoder"] = func(in *Interp, fn *ssa.Function, a []Value) Value {
+		return in.ghostIface("b64writer", map[string]interface{}{"name": b64Name(in, a[0]), "dst": a[1], "pending": smt.StrLit("")})
+	}
+	ghostMethods["b64writer.Write"] = func(in *Interp, self *Object, a []Value) Value {
+		b := a[0].(*SliceV)
+		self.Ghost["pending"] = smt.StrConcat(self.Ghost["pending"].(*smt.Term), in.stringOfBytes(b))
+		return Tuple{in.lenOf(b), nilError()}
+	}
+	ghostMethods["b64writer.Close"] = func(in *Interp, self *Object, a []Value) Value {
+		dst := self.Ghost["dst"].(Value)
+		if ifc, ok := dst.(*Iface); ok {
+			dst = ifc.V
+		}
+		in.bufAppend(dst, in.b64Encode(self.Ghost["name"].(string), self.Ghost["pending"].(*smt.Term)))
+		self.Ghost["pending"] = smt.StrLit("")
+		return nilError()
+	}
+}
